@@ -217,7 +217,8 @@ func getDrmServer() *app.Server {
 		must(copyTree(filepath.Join(bundledRoot(), "testpic_2s"), filepath.Join(drmRoot, "pre_enc")))
 		must(encryptAssetOnDisk(filepath.Join(drmRoot, "pre_enc")))
 		var err error
-		drmCfg, err = drm.ReadDrmConfig(filepath.Join(repoRoot(), "pkg/drm/testdata/drm_config_test.json"))
+		drmCfgPath = buildDrmConfig()
+		drmCfg, err = drm.ReadDrmConfig(drmCfgPath)
 		must(err)
 		cfg := app.DefaultConfig
 		cfg.VodRoot = drmRoot
@@ -233,6 +234,9 @@ func getDrmServer() *app.Server {
 }
 
 func cleanupDrmRoot() {
+	if drmCfgPath != "" {
+		os.RemoveAll(filepath.Dir(drmCfgPath))
+	}
 	if drmRoot != "" {
 		os.RemoveAll(drmRoot)
 	}
@@ -652,7 +656,7 @@ func c10Compare(enc, clear []byte, di mp4.DecryptInfo, key []byte, trex *mp4.Tre
 // ownCPIXKey reads the CPIX document of a DRM package with encoding/xml and returns the secret listed for the key id
 // (hex, no dashes); nil if it cannot be found.
 func ownCPIXKey(pkgName, kidHex string) []byte {
-	raw, err := os.ReadFile(filepath.Join(repoRoot(), "pkg/drm/testdata/drm_config_test.json"))
+	raw, err := os.ReadFile(drmCfgPath)
 	if err != nil {
 		return nil
 	}
@@ -669,7 +673,7 @@ func ownCPIXKey(pkgName, kidHex string) []byte {
 		if p.Name != pkgName {
 			continue
 		}
-		xb, err := os.ReadFile(filepath.Join(repoRoot(), "pkg/drm/testdata", p.CpixFile))
+		xb, err := os.ReadFile(filepath.Join(filepath.Dir(drmCfgPath), p.CpixFile))
 		if err != nil {
 			return nil
 		}
@@ -693,4 +697,55 @@ func ownCPIXKey(pkgName, kidHex string) []byte {
 		}
 	}
 	return nil
+}
+
+
+var drmCfgPath string
+
+// buildDrmConfig copies the repository's DRM test configuration and adds a package whose cbcs key has an 8-byte
+// explicitIV (legal for cbcs: constant IVs of 8 or 16 bytes): init and media must use the same IV.
+func buildDrmConfig() string {
+	src := filepath.Join(repoRoot(), "pkg/drm/testdata")
+	dst := filepath.Join(workDir(), fmt.Sprintf("drmcfg-%d", os.Getpid()))
+	_ = os.RemoveAll(dst)
+	must(os.MkdirAll(dst, 0o755))
+	raw, err := os.ReadFile(filepath.Join(src, "drm_config_test.json"))
+	must(err)
+	var cfg map[string]any
+	must(json.Unmarshal(raw, &cfg))
+	pkgs, _ := cfg["packages"].([]any)
+	var first map[string]any
+	for _, p := range pkgs {
+		pm, _ := p.(map[string]any)
+		if f, _ := pm["cpixFile"].(string); f != "" {
+			b, err := os.ReadFile(filepath.Join(src, f))
+			must(err)
+			must(os.WriteFile(filepath.Join(dst, f), b, 0o644))
+			if first == nil {
+				first = pm
+			}
+		}
+	}
+	if first != nil {
+		f, _ := first["cpixFile"].(string)
+		b, _ := os.ReadFile(filepath.Join(src, f))
+		if m := regexp.MustCompile(`explicitIV="([^"]+)"`).FindSubmatch(b); m != nil {
+			if iv, err := base64.StdEncoding.DecodeString(string(m[1])); err == nil && len(iv) == 16 {
+				b8 := bytes.Replace(b, m[0], []byte(`explicitIV="`+base64.StdEncoding.EncodeToString(iv[:8])+`"`), -1)
+				must(os.WriteFile(filepath.Join(dst, "cpix_iv8.xml"), b8, 0o644))
+				np := map[string]any{}
+				for k, v := range first {
+					np[k] = v
+				}
+				np["name"] = "verif-iv8-cbcs"
+				np["desc"] = "one-key cbcs with an 8-byte explicitIV (generated by /verif/harness)"
+				np["cpixFile"] = "cpix_iv8.xml"
+				cfg["packages"] = append(pkgs, np)
+			}
+		}
+	}
+	out, _ := json.Marshal(cfg)
+	p := filepath.Join(dst, "drm_config.json")
+	must(os.WriteFile(p, out, 0o644))
+	return p
 }
